@@ -8,7 +8,7 @@ META = {
         "history": "every (size, focus) of 2 sizes x 2 focus states rendered first (cache primed, canvases held), then k solver-chosen steps; a step is one public "
                    "mutation from the tree's catalogue (8-16 entries: set_text, edit keys, set_state, contents insert/delete/assign, focus changes, set_title, attr maps, "
                    "placeholder swaps, list-walker edits, scrolling), an optional release of all held canvases + gc, and renders; k = 2 (quick) / 3 (thorough); "
-                   "after the last step all four (size, focus) renderings and rows() are compared, after earlier steps one solver-chosen rendering",
+                   "after the last step all four (size, focus) renderings and rows() are compared, after earlier steps one rendering (solver-chosen; fixed per step in the quick k=2 and thorough k=3 instances)",
         "oracle": "a twin tree built by the same constructor receives the same operations but always renders with CanvasCache emptied (CanvasCache.clear() semantics); "
                   "content (per cell attribute, charset, byte), cursor and rows() must be equal; canvases handed out earlier must be unchanged and must refuse mutation",
     },
@@ -23,10 +23,10 @@ def instances(tier):
     q = tier == "quick"
     out = []
     for t in sorted(TREES):
-        out.append(Instance("%s.k1" % t, "h_hist", {"tree": t, "k": 1}, timeout=900))
-        out.append(Instance("%s.k2" % t, "h_hist", {"tree": t, "k": 2}, timeout=1800))
+        out.append(Instance("%s.k1" % t, "h_hist", {"tree": t, "k": 1, "free_render": True}, timeout=900))
+        out.append(Instance("%s.k2" % t, "h_hist", {"tree": t, "k": 2, "free_render": not q}, timeout=1800))
         if not q:
-            out.append(Instance("%s.k3" % t, "h_hist", {"tree": t, "k": 3}, timeout=3000))
+            out.append(Instance("%s.k3" % t, "h_hist", {"tree": t, "k": 3, "free_render": False}, timeout=3000))
     return out
 
 
@@ -104,8 +104,7 @@ def _t_overlay(u):
         ("key_home", lambda p, top, sz: top.keypress(sz, "home")),
         ("e.set_edit_pos0", lambda p, top, sz: p["e"].set_edit_pos(0)),
         ("e.set_edit_text", lambda p, top, sz: p["e"].set_edit_text("hello world")),
-        ("ov.bottom_new", lambda p, top, sz: setattr(p["ov"], "bottom_w", u.SolidFill("#"))),
-        ("ov.top_new", lambda p, top, sz: setattr(p["ov"], "top_w", u.LineBox(u.SolidFill("o")))),
+        ("ov.contents_top", lambda p, top, sz: p["ov"].contents.__setitem__(1, (u.LineBox(u.SolidFill("o")), p["ov"].contents[1][1]))),
         ("ov.params", lambda p, top, sz: p["ov"].set_overlay_parameters("left", 5, "top", 3)),
         ("ov.contents_assign", lambda p, top, sz: p["ov"].contents.__setitem__(0, (u.SolidFill("+"), None))),
     ]
@@ -123,7 +122,7 @@ def _t_columns_flow(u):
         ("key_space", lambda p, top, sz: top.keypress(sz, " ")),
         ("cb.set_label", lambda p, top, sz: p["cb"].set_label("longer label here")),
         ("pad.inner.set_text", lambda p, top, sz: p["pad"].original_widget.set_text("pt")),
-        ("pad.left3", lambda p, top, sz: setattr(p["pad"], "left", 3)),
+        ("pad.align_right", lambda p, top, sz: setattr(p["pad"], "align", "right")),
         ("pad.width4", lambda p, top, sz: setattr(p["pad"], "width", 4)),
         ("pad.inner_new", lambda p, top, sz: setattr(p["pad"], "original_widget", u.Text("swapped in"))),
         ("gf.append", lambda p, top, sz: p["gf"].contents.append((u.Text("zz"), p["gf"].options()))),
@@ -153,14 +152,14 @@ def _t_placeholder(u):
         ("ph.swap_back", lambda p, top, sz: setattr(p["ph"], "original_widget", p["pile"])),
         ("pb.set_completion", lambda p, top, sz: p["pb"].set_completion(55)),
         ("pb.current", lambda p, top, sz: setattr(p["pb"], "current", 100)),
-        ("ba.height3", lambda p, top, sz: setattr(p["ba"], "height", 3)),
+        ("ba.inner_new", lambda p, top, sz: setattr(p["ba"], "original_widget", u.SolidFill("s"))),
         ("lb.body_append", lambda p, top, sz: p["lb"].body.append(u.Text("more"))),
         ("lb.body0.set_text", lambda p, top, sz: p["lb"].body[0].set_text("X0!")),
         ("lb.body_new", lambda p, top, sz: setattr(p["lb"], "body", u.SimpleListWalker([u.Text("fresh")]))),
         ("pile.focus2", lambda p, top, sz: setattr(p["pile"], "focus_position", 2)),
         ("key_down", lambda p, top, sz: top.keypress(sz, "down")),
         ("txt.set_text", lambda p, top, sz: p["txt"].set_text("tail two")),
-        ("pile.item_types", lambda p, top, sz: p["pile"].contents.__setitem__(3, (p["txt"], p["pile"].options("given", 2)))),
+        ("pile.weight", lambda p, top, sz: p["pile"].contents.__setitem__(3, (u.Text("weighted"), p["pile"].options("pack")))),
     ]
     return top, p, [(12, 7), (8, 5)], muts
 
@@ -229,7 +228,7 @@ def _snap(canv):
     return (tuple(rows), canv.cursor, canv.rows(), canv.cols())
 
 
-def h_hist(I, tree, k):
+def h_hist(I, tree, k, free_render=True):
     import gc
     import weakref
 
@@ -250,10 +249,9 @@ def h_hist(I, tree, k):
         saved = (CanvasCache._widgets, CanvasCache._refs, CanvasCache._deps)
         CanvasCache._widgets, CanvasCache._refs, CanvasCache._deps = {}, {}, {}
         try:
-            out = fn()
-            if CanvasCache._refs:
-                gc.collect()
-            return out
+            # the emptied cache's dictionaries (and the weak references in them) are dropped afterwards, so no
+            # clean-up callback of a canvas rendered here ever reaches the accumulated cache
+            return fn()
         finally:
             CanvasCache._widgets, CanvasCache._refs, CanvasCache._deps = saved
 
@@ -305,10 +303,10 @@ def h_hist(I, tree, k):
             break
         if bool(I.bool("release%d" % step)):
             held.clear()
-            gc.collect()
+            gc.collect(0)
             trace.append(("release",))
         if step < k - 1:
-            ci = I.int("render%d" % step, 0, len(combos) - 1).__index__()
+            ci = I.int("render%d" % step, 0, len(combos) - 1).__index__() if free_render else (2 * step + 1) % len(combos)
             compare(combos[ci][0], combos[ci][1], "step%d" % step)
     for s, f in combos:
         compare(s, f, "final")
